@@ -3,4 +3,6 @@ pub mod text;
 pub mod strlit;
 pub mod syntax;
 pub mod schema;
+pub mod json;
+pub mod schema_mut;
 pub mod schema_ext;
